@@ -58,10 +58,19 @@ PoolFirstR == PoolFirstS \cup
     {[o |-> Side(2, {1, 2}, "skip", "cvA", "pA", "iA"), i |-> Side(1, {1}, "skip", "cvB", "pB", "iB")]}
 SpaceResidue == [s \in Sessions |-> IF s = 1 THEN PoolFirstR ELSE PoolSecondS]
 
+\* quick tier: the fields are taken off the wire by the adversary (strip), so the second connection can be ordinary
+PoolSecondQ ==
+    {[o |-> Side(1, {1}, m, "cvM", p[1], p[2]), i |-> Side(1, {1}, m, "cvB", "pB", "iB")] :
+        m \in Modes, p \in {<<"pA", "iA">>, <<"pM", "iM">>}}
+SpaceResidueQ == [s \in Sessions |-> IF s = 1 THEN PoolFirstR ELSE PoolSecondQ]
+
 RepairedOnly == {AllFields}
 AsIsOnly == {AsIsResets}
 OneMissing == {AllFields \ {f} : f \in AllFields}     \* every way to forget one reset
-AllTags == {"corrupt", "replay", "strip", "forge"}
+ForgetSome == OneMissing \cup {AsIsResets}              \* ... and the release() before the repair
+AllTags == {"corrupt", "replay", "strip", "forge", "recorded"}
+RecordedOnly == {"recorded"}
+Replays == {"recorded", "replay"}
 StripOnly == {"strip"}
 
 AllKinds == {"replace", "inject", "stall", "kill", "cancel"}
